@@ -494,7 +494,7 @@ def run(tier):
     chk.coverage = {
         'evaluations': 2 * len(cases) + op_stats['operator_evaluations'], 'operators': op_stats,
         'distinct_nontrivial': n_nontrivial,
-        'rule': 'one evaluation = one call of a library function through a real script (each case is run in both spellings); '
+        'rule': '+ round 7: arrays mixing true / false / 0 / 1 / "1" for the search, order and extreme functions; one evaluation = one call of a library function through a real script (each case is run in both spellings); '
                 'non-trivial = the argument list contains at least one integral number (top level or nested)',
         'functions': len(dist), 'excluded': sorted(EXCLUDED), 'cases_per_function_min': min(dist.values()) if dist else 0,
         'corpus_cases': n_corpus, 'family_cases (integer positions x -1..4,10,36)': n_family,
